@@ -553,6 +553,22 @@ func fixSizes(b []byte) []byte {
 	return b
 }
 
+// riffSimple wraps a raw VP8 key frame in a simple RIFF/WEBP container.
+func riffSimple(payload []byte) []byte {
+	n := len(payload)
+	pad := n & 1
+	out := make([]byte, 0, 20+n+pad)
+	out = append(out, "RIFF"...)
+	out = binary.LittleEndian.AppendUint32(out, uint32(4+8+n+pad))
+	out = append(out, "WEBPVP8 "...)
+	out = binary.LittleEndian.AppendUint32(out, uint32(n))
+	out = append(out, payload...)
+	if pad == 1 {
+		out = append(out, 0)
+	}
+	return out
+}
+
 func buildLibrary(c *Ctx, dir string) []libFile {
 	os.MkdirAll(dir, 0o755)
 	rng := c.Rng.Fork()
@@ -646,6 +662,49 @@ func buildLibrary(c *Ctx, dir string) []libFile {
 		if webp.Encode(&buf, img, makeOpts(&o)) == nil {
 			put("vp8", buf.Bytes())
 		}
+	}
+	// foreign VP8 key frames (independent emitter): header shapes the library's encoder never
+	// produces.  Tag suffixes: segupd = segmentation on, per-segment values transmitted;
+	// segnoupd = segmentation on, NO data update (relies on the decoder's defaults);
+	// lfnoupd = loop-filter deltas enabled but not transmitted.
+	nForeign := 36
+	if c.Thorough() {
+		nForeign = 200
+	}
+	for i := 0; i < nForeign; i++ {
+		fr := rng.Fork()
+		feat := ""
+		if i%3 == 1 {
+			feat = "segnoupd"
+		}
+		p := randPlan(fr, 64, feat)
+		if i%3 == 0 { // make sure plenty of frames transmit non-trivial segment values
+			p.segEnabled, p.segUpdData, p.segUpdMap = true, true, true
+			p.segAbs = i%2 == 0
+			for k := 0; k < 4; k++ {
+				p.segQP[k], p.segLFP[k] = true, true
+				if p.segAbs {
+					p.segQ[k], p.segLF[k] = 20+fr.Intn(100), 5+fr.Intn(58)
+				} else {
+					p.segQ[k], p.segLF[k] = fr.Range(-30, 30), fr.Range(-15, 15)
+					if v := p.level + p.segLF[k]; v < 0 || v > 63 {
+						p.segLF[k] = 0
+					}
+				}
+			}
+		}
+		payload := p.emit(fr)
+		tag := "vp8f"
+		switch {
+		case p.segEnabled && p.segUpdData:
+			tag += "segupd"
+		case p.segEnabled:
+			tag += "segnoupd"
+		}
+		if p.deltaEn && !p.deltaUpd {
+			tag += "lfnoupd"
+		}
+		put(tag, riffSimple(payload))
 	}
 	// animations
 	for i := 0; i < 3; i++ {
@@ -875,6 +934,56 @@ func (g *gen) history(group string) *history {
 		if r.Intn(3) == 0 {
 			f := g.pickLib(pred)
 			h.Calls = append(h.Calls, &Call{Op: []string{"cfg", "feat"}[r.Intn(2)], File: f.Path, Tag: f.Tag})
+		}
+	case "wider-then-narrower-parallel": // row-parallel lossy path (mbH >= 4, Method >= 3, no target): narrower pictures after a wider one through one pooled parallelState
+		wideMB := 5 + r.Intn(6)
+		hMB := 4 + r.Intn(4)
+		mk := func(w, hh int) *Call {
+			im := g.img(w, hh)
+			im.Kind = []string{"noise", "blocks", "noise", "grad"}[r.Intn(4)]
+			im.Alpha = r.Pick(0, 0, 0, 3)
+			im.Type = "nrgba"
+			o := g.lossyOpts()
+			o.Preset, o.TargetSize, o.TargetPSNR, o.Sharp = 0, 0, 0, false
+			o.Method = r.Pick(3, 4, 4, 5, 6)
+			o.Q = float32(r.Pick(60, 75, 90, 100))
+			o.Pass = -1
+			return &Call{Op: "enc", Img: im, Opt: o}
+		}
+		h.Calls = append(h.Calls, mk(16*wideMB-r.Intn(16), 16*hMB-r.Intn(16)))
+		for i := 1; i < n; i++ {
+			nmb := 1 + r.Intn(wideMB-1) // strictly fewer macroblock columns
+			w := 16*nmb - r.Intn(16)
+			if r.Intn(3) == 0 {
+				w = 16*(nmb-1) + 1 // width 16k+1
+			}
+			hm := 4 + r.Intn(hMB-3) // still >= 4 rows, not more rows than the wide picture
+			h.Calls = append(h.Calls, mk(maxi(1, w), 16*hm-r.Intn(16)))
+		}
+		if r.Intn(3) == 0 {
+			h.Procs = 4
+		}
+	case "foreign-decode": // A transmits header values (foreign or library-made), B relies on defaults, compare B with fresh
+		isF := func(t string) bool { return strings.HasPrefix(t, "vp8f") }
+		transmits := func(t string) bool {
+			return (isF(t) && strings.Contains(t, "segupd")) || t == "vp8" || t == "vp8a"
+		}
+		defaults := func(t string) bool {
+			return isF(t) && (strings.Contains(t, "segnoupd") || strings.Contains(t, "lfnoupd"))
+		}
+		for i := 0; i < n; i++ {
+			var f *libFile
+			switch {
+			case i == 0:
+				f = g.pickLib(transmits)
+			case i == 1 || r.Intn(3) != 0:
+				f = g.pickLib(defaults)
+			case r.Bool():
+				f = g.pickLib(isF)
+			default:
+				f = g.pickLib(transmits)
+			}
+			h.Calls = append(h.Calls, g.decCall(f))
 		}
 	case "anim-between-stills":
 		for i := 0; i < n; i++ {
@@ -1219,8 +1328,8 @@ func run(c *Ctx) {
 	var hs []*history
 	hs = append(hs, regressionHistories(g)...)
 
-	groups := []string{"lossy-enc-same-mb", "lossy-enc-option-pairs", "larger-then-smaller", "lossless-colours", "lossless-big-then-small", "decode-aba", "anim-between-stills", "mixed", "parallel-lossy-enc", "preset-dither-alpha", "procs4-mixed"}
-	per := map[string]int{"lossy-enc-same-mb": 14, "lossy-enc-option-pairs": 10, "larger-then-smaller": 6, "lossless-colours": 8, "lossless-big-then-small": 10, "decode-aba": 16, "anim-between-stills": 6, "mixed": 6, "parallel-lossy-enc": 4, "preset-dither-alpha": 10, "procs4-mixed": 5}
+	groups := []string{"lossy-enc-same-mb", "lossy-enc-option-pairs", "larger-then-smaller", "lossless-colours", "lossless-big-then-small", "wider-then-narrower-parallel", "decode-aba", "foreign-decode", "anim-between-stills", "mixed", "parallel-lossy-enc", "preset-dither-alpha", "procs4-mixed"}
+	per := map[string]int{"lossy-enc-same-mb": 14, "lossy-enc-option-pairs": 10, "larger-then-smaller": 6, "lossless-colours": 8, "lossless-big-then-small": 10, "wider-then-narrower-parallel": 12, "decode-aba": 16, "foreign-decode": 16, "anim-between-stills": 6, "mixed": 6, "parallel-lossy-enc": 4, "preset-dither-alpha": 10, "procs4-mixed": 5}
 	if c.Thorough() {
 		for k := range per {
 			per[k] *= 12
